@@ -14,7 +14,7 @@ LEVEL_TEXT = ("Static structural proof of necessary conditions: (R5.1) each publ
               "element names, MediaWiki section markers, TSV row shapes/columns, escape pairs and the '-#' suffix "
               "agree between writer and reader; (R5.5) every attribute-emission loop consults the attribute filter. "
               "Equality after reload, cross-format agreement of contents and library/unmerged selection are NOT decided.")
-LEVEL_EXTRA = "Added after the seeded evaluation: (R5.4) also the escape context of each writer/reader pair; (R5.6) no stale per-entry state in the writers' traversal loops (two frozen exceptions); (R5.7) every TSV read of the loaders takes cells verbatim as text."
+LEVEL_EXTRA = "Added after the seeded evaluation: (R5.4) also the escape context of each writer/reader pair; (R5.6) no stale per-entry state in the writers' traversal loops (two frozen exceptions); (R5.7) every TSV read of the loaders takes cells verbatim as text. (R5.8) the writers split a multi-valued attribute at the separator the readers join it with."
 
 SERIALIZERS = ["get_as_mediawiki_string", "get_as_xml_string", "get_as_dataframes",
                "save_as_mediawiki", "save_as_xml", "save_as_dataframes"]
@@ -437,3 +437,37 @@ def run(ctx):
             ctx.check(sup, "R5.5", o.qualname, "override", loc(o, o.node),
                       "%s overrides the attribute filter without consulting the base filter" % w.name,
                       desc="%s filter override delegates to the base filter" % w.name)
+
+    # ---------------- R5.8: the writers split a multi-valued attribute at the separator the readers join it with
+    ctx.rule("R5.8", "attribute values are split in the writers with the separator the XML reader (and the entry) joins them with")
+    joins = set()
+    for f in prog.functions.values():
+        if f.module.name in ("hed.schema.schema_io.xml2schema", "hed.schema.hed_schema_entry"):
+            for c in walk_no_nested(f.node):
+                if isinstance(c, ast.Call) and isinstance(c.func, ast.Attribute) and c.func.attr == "join" \
+                        and isinstance(c.func.value, ast.Constant) and isinstance(c.func.value.value, str) and "attribute" in norm(c).lower():
+                    joins.add(c.func.value.value)
+    if len(joins) != 1:
+        raise AnalysisError("R5.8: the readers join attribute values with %r (expected exactly one separator)" % sorted(joins))
+    sep = next(iter(joins))
+    n_split = 0
+    for f in prog.functions.values():
+        if not f.module.name.startswith("hed.schema.schema_io.schema2"):
+            continue
+        valnames = set()
+        for lp in ast.walk(f.node):
+            if isinstance(lp, ast.For) and isinstance(lp.iter, ast.Call) and call_name(lp.iter) == "items" \
+                    and isinstance(lp.target, ast.Tuple) and len(lp.target.elts) == 2 and isinstance(lp.target.elts[1], ast.Name):
+                valnames.add(lp.target.elts[1].id)
+        if "value" in f.params():
+            valnames.add("value")
+        for c in walk_no_nested(f.node):
+            if isinstance(c, ast.Call) and isinstance(c.func, ast.Attribute) and c.func.attr == "split" and isinstance(c.func.value, ast.Name) \
+                    and c.func.value.id in valnames and c.args and isinstance(c.args[0], ast.Constant):
+                n_split += 1
+                ctx.saw(f)
+                ctx.check(c.args[0].value == sep, "R5.8", f.qualname, c, loc(f, c),
+                          "the writer splits a multi-valued attribute at %r while values are joined with %r when read: several values "
+                          "are written as one (`<value>a,b</value>`), which an independent reader does not list as the original values"
+                          % (c.args[0].value, sep), desc="%s splits attribute values at %r" % (f.short, sep))
+    ctx.floor("R5.8", "attribute-value splits in the writers", n_split, 3)
